@@ -202,7 +202,7 @@ def _shards(tier):
         if sh["dbundle"] and (sh["obundle"] or len(sh["ops"]) > 1):
             full = tier == "thorough"
             if full:
-                combos = [(a, b, c, e) for a in (False, True) for b in (False, True) for c in range(4) for e in range(4)]
+                combos = [(a, b, c, e) for a in (False, True) for b in (False, True) for c in range(3) for e in range(3)] + [x for x in cover if 3 in x[2:]]
             elif len(sh["ops"]) > 1:
                 combos = [x for x in cover if not (x[0] and x[1])]  # both-defaults only for single operations in quick
             else:
